@@ -1,7 +1,7 @@
 (* Isa/Sim.v — model of the instruction-set simulator: procbuilder.VM.Step and the Simulate
    methods of the modelled opcodes, on decoded instructions.  Each Simulate is transcribed as
-   written, including the ones that are stubs (sub only advances the pc) or that silently do
-   nothing for 32/64-bit registers (and/or/xor/not/nand/nor/xnor). *)
+   written (sub and the 32/64-bit cases of the bitwise opcodes were stubs before fixes 9d21ff6 and
+   ca7d3ab). *)
 From Coq Require Import List NArith Bool Arith.
 Import ListNotations.
 Local Open Scope N_scope.
@@ -50,11 +50,11 @@ Definition small (rsize : N) : bool := (rsize =? 8) || (rsize =? 16).
 Definition exec (rsize : N) (proglen : N) (p : pstate) (i : instr) : pstate :=
   let R := fun k => nthN (regs p) k in
   let bin (d : nat) (v : N) := next_pc (with_reg p d (v mod M rsize)) in
-  let logic (d : nat) (v : N) := if small rsize then next_pc (with_reg p d v) else next_pc p in
+  let logic (d : nat) (v : N) := next_pc (with_reg p d v) in
   let inv (v : N) := N.lxor v (N.ones rsize) in
   match i with
   | IAdd d s => bin d (R d + R s)
-  | ISub _ _ => next_pc p
+  | ISub d s => bin d (R d + M rsize - R s mod M rsize)
   | IMult d s => bin d (R d * R s)
   | ICpy d s => next_pc (with_reg p d (R s))
   | IAnd d s => logic d (N.land (R d) (R s))
